@@ -6,9 +6,11 @@ package main
 import (
 	"bytes"
 	"fmt"
+	"os"
 	"path/filepath"
 	"regexp"
 	"sort"
+	"strconv"
 	"strings"
 	"time"
 
@@ -291,7 +293,25 @@ func direct(c *hcase, ob *obs) []pfail {
 	specUnit := unitOf(c.T0)
 	lastAny := map[string]int64{}
 	lastPut := map[string]int64{} // what the id cache must hold as long as nothing was evicted
-	everPut := map[string]bool{}  // ids that may ever have entered the cache (its capacity is 1000)
+	everPut := map[string]bool{}  // ids that may ever have entered the cache
+	// the bounded table as specified (C09: insertion-ordered dictionary, a new key at capacity
+	// forgets the eldest, a known key keeps its place); capacity read from the source
+	capN := idCacheCap
+	var fifoKeys []string
+	fifo := map[string]int64{}
+	fifoExact := true // false once a line of the logger's own (unobserved id) may have entered
+	fifoPut := func(id string, t int64) {
+		if _, ok := fifo[id]; ok {
+			fifo[id] = t
+			return
+		}
+		for capN > 0 && len(fifoKeys) >= capN {
+			delete(fifo, fifoKeys[0])
+			fifoKeys = fifoKeys[1:]
+		}
+		fifoKeys = append(fifoKeys, id)
+		fifo[id] = t
+	}
 	type placed struct {
 		tok  string
 		file string
@@ -336,10 +356,27 @@ func direct(c *hcase, ob *obs) []pfail {
 				}
 			}
 			w := ob.wrote[i]
-			if w && levelOK && methRated(o.Meth) && interval > 0 && id != "" && len(everPut) < 1000 {
+			if w && levelOK && methRated(o.Meth) && interval > 0 && id != "" && len(everPut) < capN {
 				if t, ok := lastPut[id]; ok && o.T < t+int64(interval)*1000 {
 					add("FileLogger.log:repeat-not-suppressed", "op %d: %s with id %q was written %d ms after a line with the same id (interval %d s, %d distinct ids so far: below the capacity of the id cache)",
 						i, o.Meth, id, o.T-t, interval, len(everPut))
+				}
+			}
+			// the table is (or has been) full: follow the specified eviction exactly
+			if fifoExact && levelOK && methRated(o.Meth) && interval > 0 && id != "" && len(everPut) >= capN {
+				t, resident := fifo[id]
+				mustSuppress := resident && o.T < t+int64(interval)*1000
+				switch {
+				case w && mustSuppress:
+					add("FileLogger.log:repeat-suppression:full-table", "op %d: %s with id %q was written %d ms after a line with the same id (interval %d s) although the id table (capacity %d, %d distinct ids so far, eldest forgotten first) still holds that id — its entry is number %d of %d counted from the eldest",
+						i, o.Meth, id, o.T-t, interval, capN, len(everPut), indexOf(fifoKeys, id)+1, len(fifoKeys))
+				case !w && !mustSuppress && ob.curAt[i] != "none":
+					why := "its last line is older than the interval"
+					if !resident {
+						why = "the table (eldest forgotten first) no longer holds it"
+					}
+					add("FileLogger.log:repeat-suppression:full-table", "op %d: %s with id %q was suppressed although %s (capacity %d, %d distinct ids so far, interval %d s)",
+						i, o.Meth, id, why, capN, len(everPut), interval)
 				}
 			}
 			if w && !levelOK {
@@ -357,6 +394,7 @@ func direct(c *hcase, ob *obs) []pfail {
 					if interval > 0 && id != "" {
 						lastPut[id] = o.T
 						everPut[id] = true
+						fifoPut(id, o.T)
 					}
 				}
 				if tok := tokenOf(msg); tok != "" {
@@ -415,6 +453,7 @@ func direct(c *hcase, ob *obs) []pfail {
 					delete(lastPut, id) // which of the two was written is not observed
 					everPut[id] = true
 				}
+				fifoExact = false
 			}
 			if d == nil {
 				continue
@@ -441,6 +480,10 @@ func direct(c *hcase, ob *obs) []pfail {
 	// placement and order of the marked lines
 	lastPos := map[string]int{}
 	lastOp := map[string]int{}
+	want := map[[2]string]int{} // a marked message logged several times is due as often as it was written
+	for _, e := range expect {
+		want[[2]string{e.file, e.tok}]++
+	}
 	for _, e := range expect {
 		content, ok := ob.files[e.file]
 		if _, was := removed[e.file]; was {
@@ -451,9 +494,11 @@ func direct(c *hcase, ob *obs) []pfail {
 			continue
 		}
 		k := bytes.Count(content, []byte(e.tok))
-		if k != 1 {
-			add("FileLogger.log:line-missing", "op %d: line %s occurs %d times in %q (expected once)", e.op, e.tok, k, e.file)
+		if n := want[[2]string{e.file, e.tok}]; k != n {
+			add("FileLogger.log:line-missing", "op %d: line %s occurs %d times in %q (expected %d)", e.op, e.tok, k, e.file, n)
 			continue
+		} else if n > 1 {
+			continue // repeated marker: order is checked on the single ones
 		}
 		pos := bytes.Index(content, []byte(e.tok))
 		if p, ok := lastPos[e.file]; ok && pos < p {
@@ -467,3 +512,31 @@ func direct(c *hcase, ob *obs) []pfail {
 var tokRe = regexp.MustCompile(`#[0-9]+#`)
 
 func tokenOf(msg string) string { return tokRe.FindString(msg) }
+
+
+func indexOf(xs []string, x string) int {
+	for i, y := range xs {
+		if y == x {
+			return i
+		}
+	}
+	return -1
+}
+
+// idCacheCap is the capacity of the logger's id table, read from the source
+// (`hmap.NewStringLongLinkedMap().SetMax(N)` in NewFileLogger); 1000 when it cannot be read.
+var idCacheCap = 1000
+
+var setMaxRe = regexp.MustCompile(`NewStringLongLinkedMap\(\)\.SetMax\((\d+)\)`)
+
+func readIDCacheCap(repo string) {
+	b, err := os.ReadFile(filepath.Join(repo, "logger/logfile/FileLogger.go"))
+	if err != nil {
+		return
+	}
+	if m := setMaxRe.FindSubmatch(b); m != nil {
+		if n, err := strconv.Atoi(string(m[1])); err == nil && n > 0 {
+			idCacheCap = n
+		}
+	}
+}
